@@ -500,6 +500,9 @@ func (s *SMT) literalHooks() []string {
 		if want["isempty"] {
 			out = append(out, fmt.Sprintf("(assert (= (isempty %s) %s))", n, b(len(v) == 0)))
 		}
+		if want["nodash"] {
+			out = append(out, fmt.Sprintf("(assert (= (nodash %s) %s))", n, b(!strings.Contains(v, "-"))))
+		}
 		if want["sqlfixed"] {
 			// program constants are fixed statement text
 			out = append(out, fmt.Sprintf("(assert (sqlfixed %s))", n))
